@@ -107,12 +107,15 @@ def _fresh(ex):
 
 def _table(w):
     m = w.mgr.attrs
+    # every other plain counter / flag the manager keeps (e.g. the fresh-name counter), whatever it is called
+    scalars = tuple(sorted((k, v) for k, v in m.items() if isinstance(v, (int, str, bool)) and k != "_next_free_id"))
     return (dict(m["formulae"]), m["_next_free_id"], dict(m["symbols"]),
-            dict(m["int_constants"]), dict(m["real_constants"]), dict(m["string_constants"]))
+            dict(m["int_constants"]), dict(m["real_constants"]), dict(m["string_constants"]), scalars)
 
 
 def _same_table(t1, t2):
-    what = ["the hash-consing table", "the id counter", "the symbol table", "the Int cache", "the Real cache", "the String cache"]
+    what = ["the hash-consing table", "the id counter", "the symbol table", "the Int cache", "the Real cache", "the String cache",
+            "a counter / flag of the manager"]
     for a, b, n in zip(t1, t2, what):
         if isinstance(a, dict):
             if len(a) != len(b) or any(k not in b or b[k] is not a[k] for k in a):
@@ -331,9 +334,85 @@ def _type_failure_job(idx):
     return [p.value if p.kind == "return" else ("unsupported", name, "%s %s" % (p.kind, str(p.value)[:200])) for p in paths]
 
 
+REQUESTS = ["new_fresh_symbol('Int')", "new_fresh_symbol(Int, 'K')", "FreshSymbol(None, 'FV')", "Symbol('nn', 'Int')", "Symbol('a', Int)",
+            "get_or_create_symbol('a', Int)", "Symbol('nn', Pair/2)", "get_symbol('nope')"]
+
+
+def _request_failure_job(idx):
+    """Rejected requests to the real manager other than ill-typed applications (fresh symbols with something that is
+    not a sort or a name template without a place for the counter, a symbol re-declared with another sort, an unknown
+    name): rejected twice, tables and counters unchanged, and the fresh symbols / nodes made afterwards are those of a
+    manager that never saw the request."""
+    name = REQUESTS[idx]
+
+    def one(ex):
+        def world(with_failure):
+            it, w, env = _fresh(ex)
+            mgr = w.mgr
+            tm = w.env.attrs["_type_manager"]
+            INT_ = w.tyobj(INT)
+
+            def request():
+                if name == "new_fresh_symbol('Int')":
+                    return it.call(it.getattr(mgr, "new_fresh_symbol"), ["Int"])
+                if name == "new_fresh_symbol(Int, 'K')":
+                    return it.call(it.getattr(mgr, "new_fresh_symbol"), [INT_, "K"])
+                if name == "FreshSymbol(None, 'FV')":
+                    return it.call(it.getattr(mgr, "FreshSymbol"), [], {"template": "FV"})
+                if name == "Symbol('nn', 'Int')":
+                    return it.call(it.getattr(mgr, "Symbol"), ["nn", "Int"])
+                if name == "Symbol('a', Int)":
+                    return it.call(it.getattr(mgr, "Symbol"), ["a", INT_])
+                if name == "get_or_create_symbol('a', Int)":
+                    return it.call(it.getattr(mgr, "get_or_create_symbol"), ["a", INT_])
+                if name == "Symbol('nn', Pair/2)":
+                    return it.call(it.getattr(mgr, "Symbol"), ["nn", it.call(it.getattr(tm, "Type"), ["Pair", 2])])
+                return it.call(it.getattr(mgr, "get_symbol"), ["nope"])
+            outs = []
+            if with_failure:
+                before = _table(w)
+                for _ in range(2):
+                    try:
+                        r = request()
+                        outs.append("returned %s" % (w.to_str(it, r)[1] if isinstance(r, AObj) else r,))
+                    except AbsRaise as ex_:
+                        outs.append("raises " + ex_.cls_name)
+                    diff = _same_table(before, _table(w))
+                    if outs[-1].startswith("raises") and diff:
+                        return None, ("bad", "request-trace|%s" % name, "the request %s is rejected (%s) but %s changed: the failed call left a "
+                                      "trace" % (name, outs[-1], diff))
+            later = []
+            for _ in range(2):
+                later.append(w.to_str(it, it.call(it.getattr(mgr, "new_fresh_symbol"), [INT_]))[1])
+            later.append(w.to_str(it, it.call(it.getattr(mgr, "FreshSymbol"), [], {"template": "q%d"}))[1])
+            n = _build(w, env, ("And", ("LT", "y", "x"), ("Not", "c")))
+            later.append(n.attrs.get("_node_id"))
+            return (outs, later), None
+        got, bad = world(True)
+        if bad:
+            return bad
+        outs, later = got
+        (_, want), _ = world(False)
+        if not outs[0].startswith("raises"):
+            # a request the pinned tree answers is no failing call: nothing to decide here
+            return ("ok", "request " + name, "not rejected (%s): no failing call" % outs[0])
+        if outs[1] != outs[0]:
+            return ("bad", "request-second|%s" % name, "the request %s %s the first time and %s the second time" % (name, outs[0], outs[1]))
+        if later != want:
+            return ("bad", "request-later|%s" % name, "after the request %s was rejected (%s) the next fresh symbols / node ids are %r; in a "
+                    "manager that never saw the request: %r" % (name, outs[0], later, want))
+        return ("ok", "request " + name, "rejected twice (%s), tables and counters unchanged, later fresh names as without it" % outs[0])
+    try:
+        paths = Explorer(max_paths=4).run(one)
+    except Unsupported as e:
+        return [("unsupported", name, str(e))]
+    return [p.value if p.kind == "return" else ("unsupported", name, "%s %s" % (p.kind, str(p.value)[:200])) for p in paths]
+
+
 def failure_results():
     out = []
-    for r in parallel_map(_failure_job, list(range(len(ill_typed())))) + parallel_map(_type_failure_job, list(range(8))):
+    for r in (parallel_map(_failure_job, list(range(len(ill_typed())))) + parallel_map(_type_failure_job, list(range(8)))
+              + parallel_map(_request_failure_job, list(range(len(REQUESTS))))):
         out.extend(r)
     return out
 
